@@ -1,5 +1,6 @@
 import RossModel.Generated.Decoders
 import RossModel.Lemmas.Applies
+import RossModel.Lemmas.Event
 /-!
 # Fifteen event decoders as translated from the source text
 
@@ -52,8 +53,8 @@ macro "dec_cases_flag" k:term:max p:ident : tactic =>
              (have h' := h
               simp only [sizeOk, beq_iff_eq, decide_eq_true_eq] at h'
               simp (disch := omega) [h, h', hE, rd_eq, Res.bind, bind, pure, Kind.code, if_pos, if_neg]
-              first | done | ((repeat' split) <;> (try simp (disch := omega) [rd_eq, Res.bind] at *) <;> (try simp_all) <;>
-                (first | omega | (apply take_drop_all; omega) | skip)))))
+              first | done | ((repeat' split) <;> (try simp (disch := omega) [rd_eq, Res.bind] at *) <;> (try simp_all [bcm_de_no_panic, relay_de_no_panic]) <;>
+                (try simp (disch := omega) [take_drop_all]) <;> (first | omega | (apply take_drop_all; omega) | skip)))))
 
 macro "dec_agree" f:ident k:term : tactic =>
   `(tactic| first
